@@ -308,6 +308,8 @@ impl Connection {
 
     pub async fn close(&mut self) -> Result<()> {
         self.transport.close();
+        // a later connect() starts with a handshake again, which uses 2-byte length prefixes
+        self.transport.set_frame_mode(FrameMode::Handshake);
         self.handshake.disconnect();
         Ok(())
     }
